@@ -264,8 +264,10 @@ constexpr auto inverse_in(TargetUnits target_units, Quantity<U, R> q) {
     // (An extreme instance of this kind of lossiness would be the inverse of a nonzero value
     // getting represented as 0, which would happen for values over the threshold.)
 
-    // This will fail at compile time for types that can't hold 1'000'000.
-    constexpr R threshold = 1'000'000;
+    // This will fail at compile time for types that can't hold 1'000'000.  (We use list
+    // initialization, because copy initialization would silently _wrap_ the value for small integral
+    // types --- e.g., to 16'960 for `int16_t` --- instead of failing.)
+    constexpr R threshold{1'000'000};
 
     constexpr auto UNITY = make_constant(UnitProductT<>{});
 
